@@ -142,13 +142,24 @@ type rwBook struct {
 	finalizedRound []int32
 	finCertOK      bool
 	finCertWhy     string
+	durable        []*fBlock // the finalized chain: the block store is durable (Finalize is durable once it returns)
+}
+
+// withChainOf returns b with the finalization part replaced by n's current one.
+func (b rwBook) withChainOf(n *csNode) rwBook {
+	c := copyBook(b)
+	c.finalized = append([]string(nil), n.finalized...)
+	c.finalizedRound = append([]int32(nil), n.finalizedRound...)
+	c.finCertOK, c.finCertWhy = n.finCertOK, n.finCertWhy
+	c.durable = append([]*fBlock(nil), n.durable...)
+	return c
 }
 
 func rwBookOf(n *csNode) rwBook {
 	b := rwBook{signed: make(map[string]string, len(n.signed)), equivocated: n.equivocated, notDurable: n.notDurable,
 		resigned: n.resigned, restarts: n.restarts, totalProposals: n.totalProposals + n.bm.proposals,
 		finalized: append([]string(nil), n.finalized...), finalizedRound: append([]int32(nil), n.finalizedRound...),
-		finCertOK: n.finCertOK, finCertWhy: n.finCertWhy}
+		finCertOK: n.finCertOK, finCertWhy: n.finCertWhy, durable: append([]*fBlock(nil), n.durable...)}
 	for k, v := range n.signed {
 		b.signed[k] = v
 	}
@@ -166,9 +177,14 @@ func (b rwBook) key() string {
 
 // ---------------------------------------------------------------- one incarnation of validator v
 
-type rwSend struct {
-	logLen int    // file-system calls applied when the send happened
-	book   rwBook // bookkeeping right after the send
+// rwEffect is one externally visible effect of a step, in execution order:
+// 'f' a file-system call (about to be applied when logLen calls were logged),
+// 's' a vote/proposal handed to the network, 'z' a block finalized (the fake
+// block manager's Finalize returned: durable from here on).
+type rwEffect struct {
+	kind   byte
+	logLen int
+	book   rwBook // 's', 'z': bookkeeping right after the effect
 }
 
 type rwStep struct {
@@ -176,12 +192,12 @@ type rwStep struct {
 	desc     string
 	logStart int
 	logEnd   int
-	sends    []rwSend
+	effects  []rwEffect
 	before   rwBook
 	after    rwBook
 }
 
-// positions of a step: after each effect (file-system call or send), in order.
+// positions of a step: after each effect, in order; the last one is the step boundary.
 type rwPos struct {
 	logIdx int
 	book   rwBook
@@ -192,26 +208,21 @@ type rwPos struct {
 func (s *rwStep) positions(log []crashfs.Op) []rwPos {
 	var out []rwPos
 	cur := s.before
-	si := 0
-	flushSends := func(upTo int) {
-		for si < len(s.sends) && s.sends[si].logLen <= upTo {
-			cur = s.sends[si].book
-			// finalizations of an interrupted step are not credited (see file comment)
-			out = append(out, rwPos{logIdx: s.sends[si].logLen, book: cur, inside: true, desc: fmt.Sprintf("after send #%d of the step", si+1)})
-			si++
+	ns := 0
+	for _, e := range s.effects {
+		switch e.kind {
+		case 'f':
+			out = append(out, rwPos{logIdx: e.logLen + 1, book: cur, inside: true, desc: "after fs call " + log[e.logLen].String()})
+		case 's':
+			ns++
+			cur = e.book
+			out = append(out, rwPos{logIdx: e.logLen, book: cur, inside: true, desc: fmt.Sprintf("after send #%d of the step", ns)})
+		case 'z':
+			cur = e.book
+			out = append(out, rwPos{logIdx: e.logLen, book: cur, inside: true, desc: fmt.Sprintf("after Finalize of height %d returned", len(cur.finalized))})
 		}
 	}
-	for l := s.logStart; l < s.logEnd; l++ {
-		flushSends(l)
-		out = append(out, rwPos{logIdx: l + 1, book: cur, inside: true, desc: "after fs call " + log[l].String()})
-	}
-	flushSends(s.logEnd)
-	for i := range out {
-		b := out[i].book
-		b.finalized, b.finalizedRound, b.finCertOK, b.finCertWhy = s.before.finalized, s.before.finalizedRound, s.before.finCertOK, s.before.finCertWhy
-		out[i].book = b
-	}
-	// the boundary after the step
+	// the boundary after the step (nothing visible happens after the last effect)
 	if len(out) > 0 {
 		out = out[:len(out)-1]
 	}
@@ -220,20 +231,35 @@ func (s *rwStep) positions(log []crashfs.Op) []rwPos {
 }
 
 type rwInc struct {
-	n     *csNode
-	fs    *crashfs.FS
-	wm    *rwWM
-	steps []rwStep
-	from  int // index of the first event this incarnation is to apply
-	next  int // first event index not yet applied
-	cur   *rwStep
+	n       *csNode
+	fs      *crashfs.FS
+	wm      *rwWM
+	steps   []rwStep
+	from    int // index of the first event this incarnation is to apply
+	next    int // first event index not yet applied
+	cur     *rwStep
+	curBook rwBook // bookkeeping after the last recorded effect of the current step
+	seenFin int    // finalizations already recorded as effects
+}
+
+// noteFinalize records a Finalize that returned since the last recorded effect
+// (the harness's block manager has no hook of its own; nothing else visible can
+// have happened in between).
+func (inc *rwInc) noteFinalize(logLen int) {
+	if inc.cur == nil || len(inc.n.finalized) <= inc.seenFin {
+		return
+	}
+	inc.seenFin = len(inc.n.finalized)
+	inc.curBook = inc.curBook.withChainOf(inc.n)
+	inc.cur.effects = append(inc.cur.effects, rwEffect{kind: 'z', logLen: logLen, book: inc.curBook})
 }
 
 type rwTier struct {
 	env               *csEnv
 	v                 int
-	evs               []gEvent // v's events of the base trace
-	base              map[int]string
+	evs               []gEvent         // v's events of the base trace
+	baseFin           map[int][]string // what every validator of the base run finalized, per height
+	heights           int              // number of heights the base run decides
 	sched             string
 	tear1             *crashfs.TearOptions
 	tear2             *crashfs.TearOptions
@@ -258,6 +284,7 @@ func (t *rwTier) newNode(fs *crashfs.FS, book rwBook, now time.Time) (*csNode, *
 		n.signed[k] = v
 	}
 	n.equivocated, n.notDurable, n.resigned, n.restarts, n.totalProposals = book.equivocated, book.notDurable, book.resigned, book.restarts, book.totalProposals
+	n.durable = append([]*fBlock(nil), book.durable...)
 	n.finalized = append([]string(nil), book.finalized...)
 	n.finalizedRound = append([]int32(nil), book.finalizedRound...)
 	n.finCertOK, n.finCertWhy = book.finCertOK, book.finCertWhy
@@ -270,6 +297,7 @@ func copyBook(b rwBook) rwBook {
 	for k, v := range b.signed {
 		c.signed[k] = v
 	}
+	c.durable = append([]*fBlock(nil), b.durable...)
 	c.finalized = append([]string(nil), b.finalized...)
 	c.finalizedRound = append([]int32(nil), b.finalizedRound...)
 	return c
@@ -278,6 +306,7 @@ func copyBook(b rwBook) rwBook {
 func (t *rwTier) step(inc *rwInc, evIdx int, desc string, before rwBook, fn func()) {
 	s := rwStep{ev: evIdx, desc: desc, logStart: inc.fs.LogLen(), before: before}
 	inc.cur = &s
+	inc.curBook = before
 	fn()
 	if t.tickEvery > 0 && (len(inc.steps)+1)%t.tickEvery == 0 && !inc.fs.Frozen() {
 		// part of the step: every file-system call of the tick is a crash position too
@@ -285,6 +314,7 @@ func (t *rwTier) step(inc *rwInc, evIdx int, desc string, before rwBook, fn func
 			inc.n.panicked = "housekeeping: " + p
 		}
 	}
+	inc.noteFinalize(inc.fs.LogLen())
 	inc.cur = nil
 	s.logEnd = inc.fs.LogLen()
 	if t.tickEvery > 0 {
@@ -308,20 +338,43 @@ func (t *rwTier) step(inc *rwInc, evIdx int, desc string, before rwBook, fn func
 func (t *rwTier) start(fs *crashfs.FS, book rwBook, now time.Time, from int) *rwInc {
 	crashfs.Use(fs)
 	n, wm := t.newNode(fs, book, now)
-	inc := &rwInc{n: n, fs: fs, wm: wm, from: from, next: from}
+	inc := &rwInc{n: n, fs: fs, wm: wm, from: from, next: from, seenFin: len(book.finalized)}
 	n.onSend = func(proto uint16, b []byte) {
 		if inc.cur != nil && (proto == uint16(ProtoVote) || proto == uint16(ProtoProposal)) {
-			inc.cur.sends = append(inc.cur.sends, rwSend{logLen: fs.LogLen(), book: rwBookOf(n)})
+			l := fs.LogLen()
+			inc.noteFinalize(l)
+			inc.curBook = rwBookOf(n)
+			inc.cur.effects = append(inc.cur.effects, rwEffect{kind: 's', logLen: l, book: inc.curBook})
 		}
 	}
+	fs.OnMutate(func(l int) { // runs with fs locked: no fs calls in here
+		if inc.cur != nil {
+			inc.noteFinalize(l)
+			inc.cur.effects = append(inc.cur.effects, rwEffect{kind: 'f', logLen: l})
+		}
+	})
 	t.step(inc, -1, "start", copyBook(book), func() {
 		n.boot()
-		for len(n.finalized) == 0 && n.complete(0) {
+		for !t.terminal(n.finalized) && n.complete(0) {
 		}
 	})
 	n.takeOut()
 	return inc
 }
+
+func (t *rwTier) setBase(sc *scenario) {
+	t.baseFin = map[int][]string{}
+	t.heights = 1
+	for i, n := range sc.nodes {
+		t.baseFin[i] = append([]string(nil), n.finalized...)
+		if len(n.finalized) > t.heights {
+			t.heights = len(n.finalized)
+		}
+	}
+}
+
+// terminal: the validator has finalized every height the base run decides.
+func (t *rwTier) terminal(finalized []string) bool { return len(finalized) >= t.heights }
 
 func rwApply(n *csNode, e gEvent) {
 	switch e.Kind {
@@ -337,10 +390,8 @@ func rwApply(n *csNode, e gEvent) {
 // cont applies v's events inc.next .. upTo-1, recording each step.
 func (t *rwTier) cont(inc *rwInc, upTo int) {
 	crashfs.Use(inc.fs)
-	// height 1 only, like every csnet family: a validator that has finalized is done
-	// (the harness's block store does not survive a restart, so nothing sound can
-	// be said about height 2)
-	for j := inc.next; j < upTo && j < len(t.evs) && !inc.n.dead() && len(inc.n.finalized) == 0; j++ {
+	// a validator that has finalized the last height of its base schedule is done
+	for j := inc.next; j < upTo && j < len(t.evs) && !inc.n.dead() && !t.terminal(inc.n.finalized); j++ {
 		e := t.evs[j]
 		t.step(inc, j, e.Ev, rwBookOf(inc.n), func() { rwApply(inc.n, e) })
 		inc.next = j + 1
@@ -391,28 +442,30 @@ type rwSpec struct {
 }
 
 type rwResult struct {
-	Spec          rwSpec        `json:"spec"`
-	Events        int           `json:"events_of_validator"`
-	Positions     [4]int        `json:"crash_positions_by_generation"`
-	InsideStep    int           `json:"crash_positions_inside_a_step"`
-	Images        [4]int        `json:"crash_images_by_generation"`
-	ZeroImages    int           `json:"crash_images_zero_filled_tail"`
-	TornImages    int           `json:"crash_images_torn"`
-	Restarts      int           `json:"engines_restarted_on_an_image"`
-	Repairs       int           `json:"restarts_that_repaired_a_wal"`
-	Continuations int           `json:"restarts_continued_through_the_schedule"`
-	EngineSteps   int           `json:"real_engine_steps"`
-	Resigned      []string      `json:"cases_signed_again_after_restart"`
-	Violations    []rwViolation `json:"violations,omitempty"`
-	BeyondHeight1 int           `json:"observations_beyond_height_1_not_judged"`
-	Rotations     int           `json:"segments_created_by_housekeeping_ticks"`
-	RepairRemoves int           `json:"restarts_whose_repair_removed_a_segment"`
-	Complete      bool          `json:"complete"`
-	SelfTest      int           `json:"failafter_selftest_points"`
-	SelfTestBad   string        `json:"failafter_selftest_mismatch,omitempty"`
-	BaseMismatch  string        `json:"base_run_mismatch,omitempty"`
-	WallS         float64       `json:"wall_s"`
-	Sample        interface{}   `json:"sample,omitempty"`
+	Spec              rwSpec        `json:"spec"`
+	Events            int           `json:"events_of_validator"`
+	Positions         [4]int        `json:"crash_positions_by_generation"`
+	InsideStep        int           `json:"crash_positions_inside_a_step"`
+	Images            [4]int        `json:"crash_images_by_generation"`
+	ZeroImages        int           `json:"crash_images_zero_filled_tail"`
+	TornImages        int           `json:"crash_images_torn"`
+	Restarts          int           `json:"engines_restarted_on_an_image"`
+	Repairs           int           `json:"restarts_that_repaired_a_wal"`
+	Continuations     int           `json:"restarts_continued_through_the_schedule"`
+	EngineSteps       int           `json:"real_engine_steps"`
+	Resigned          []string      `json:"cases_signed_again_after_restart"`
+	Violations        []rwViolation `json:"violations,omitempty"`
+	Rotations         int           `json:"segments_created_by_housekeeping_ticks"`
+	FinalizePositions int           `json:"crash_positions_right_after_a_finalize"`
+	RestartsWithChain int           `json:"restarts_with_a_non_empty_finalized_chain"`
+	Heights           int           `json:"heights_of_base_schedule"`
+	RepairRemoves     int           `json:"restarts_whose_repair_removed_a_segment"`
+	Complete          bool          `json:"complete"`
+	SelfTest          int           `json:"failafter_selftest_points"`
+	SelfTestBad       string        `json:"failafter_selftest_mismatch,omitempty"`
+	BaseMismatch      string        `json:"base_run_mismatch,omitempty"`
+	WallS             float64       `json:"wall_s"`
+	Sample            interface{}   `json:"sample,omitempty"`
 }
 
 // ---------------------------------------------------------------- base schedules
@@ -464,6 +517,12 @@ func rwSchedule(name string) (*scenario, []int) {
 	case "B5":
 		sc, _ := scenarioStalePolka(0, 0)
 		return sc, []int{0, 1, 2}
+	case "B7": // two heights: lock at height 2, WALs hold records of both heights
+		sc, _ := scenarioHeight2Amnesia(false, 0, 0)
+		return sc, []int{0, 1, 2}
+	case "B8": // two heights, height 1 decided in round 1: stale lock records of the older height
+		sc, _ := scenarioStaleHeightRecords(false, 0, 0)
+		return sc, []int{0, 1, 2}
 	}
 	panic("unknown schedule " + name)
 }
@@ -503,13 +562,10 @@ func (t *rwTier) violation(sig, detail string, c rwCase) {
 func (t *rwTier) verdict(inc *rwInc, c rwCase) {
 	n := inc.n
 	where := fmt.Sprintf("schedule %s, validator V%d, %d crash(es): %s", t.sched, t.v, len(c.Crashes), rwDescribe(c))
-	if (n.equivocated != "" && !strings.Contains(n.equivocated, "/h1/")) || (n.notDurable != "" && !strings.Contains(n.notDurable, "/h1/")) {
-		t.res.BeyondHeight1++ // not judged: see cont()
-	}
-	if n.equivocated != "" && strings.Contains(n.equivocated, "/h1/") {
+	if n.equivocated != "" {
 		t.violation("equivocation", fmt.Sprintf("correct validator V%d equivocated over the real WAL: %s\n%s", t.v, n.equivocated, where), c)
 	}
-	if n.notDurable != "" && strings.Contains(n.notDurable, "/h1/") {
+	if n.notDurable != "" {
 		t.violation("sent-before-durable", fmt.Sprintf("correct validator V%d: %s (real WAL: record not inside the durable prefix of the round WAL files)\n%s", t.v, n.notDurable, where), c)
 	}
 	if n.panicked != "" {
@@ -519,15 +575,14 @@ func (t *rwTier) verdict(inc *rwInc, c rwCase) {
 		}
 		t.violation(sig, fmt.Sprintf("validator V%d: %s\n%s", t.v, firstLine(n.panicked), where), c)
 	}
-	vals := map[string]bool{}
-	for _, f := range t.base {
-		vals[f] = true
-	}
-	for _, f := range n.finalized {
-		vals[f] = true
-	}
-	if len(vals) > 1 {
-		t.violation("disagreement", fmt.Sprintf("validator V%d finalized %v, the base run finalized %v\n%s", t.v, n.finalized, t.base, where), c)
+	for h, f := range n.finalized { // agreement with the base run, height by height
+		for i, bf := range t.baseFin {
+			if h < len(bf) && bf[h] != f {
+				t.violation("disagreement", fmt.Sprintf("validator V%d finalized %s at height %d, V%d finalized %s there in the base run (V%d: %v, base: %v)\n%s",
+					t.v, shortHex(unhex(f)), h+1, i, shortHex(unhex(bf[h])), t.v, n.finalized, t.baseFin, where), c)
+				break
+			}
+		}
 	}
 	if len(n.finalized) > 0 && !n.finCertOK {
 		t.violation("finalize-without-quorum", fmt.Sprintf("validator V%d: %s\n%s", t.v, n.finCertWhy, where), c)
@@ -565,8 +620,8 @@ func (t *rwTier) explore(inc *rwInc, gen int, sofar []rwCrash) {
 	log := inc.fs.Log()
 	for si := range inc.steps {
 		s := &inc.steps[si]
-		if len(s.before.finalized) > 0 {
-			break // finalized before this step: terminal
+		if t.terminal(s.before.finalized) {
+			break // every height finalized before this step: terminal
 		}
 		if gen >= 2 && t.laterSteps > 0 && si > t.laterSteps {
 			break
@@ -580,6 +635,9 @@ func (t *rwTier) explore(inc *rwInc, gen int, sofar []rwCrash) {
 			t.res.Positions[gen]++
 			if p.inside {
 				t.res.InsideStep++
+			}
+			if strings.HasPrefix(p.desc, "after Finalize") {
+				t.res.FinalizePositions++
 			}
 			next := s.ev + 1
 			if s.ev < 0 {
@@ -643,6 +701,9 @@ func (t *rwTier) explore(inc *rwInc, gen int, sofar []rwCrash) {
 func (t *rwTier) restartOn(img *crashfs.Image, book rwBook, now time.Time, next int, gen int, c rwCase) *rwInc {
 	inc := t.start(crashfs.FromImage(img), book, now, next)
 	t.res.Restarts++
+	if len(book.durable) > 0 {
+		t.res.RestartsWithChain++
+	}
 	if rwRepaired(inc) {
 		t.res.Repairs++
 	}
@@ -707,7 +768,8 @@ func runRealWALWorker(spec rwSpec) *rwResult {
 		}
 	}
 	res.Events = len(t.evs)
-	t.base, _ = sc.result()
+	t.setBase(sc)
+	res.Heights = t.heights
 	deadline := t0.Add(time.Duration(spec.BudgetS) * time.Second)
 	t.stop = func() bool { return time.Now().After(deadline) }
 	t.tear1 = &crashfs.TearOptions{AllUpTo: 64, Boundaries: rwBoundaries, MaxProduct: 512, ZeroTails: rwZeroTails()}
@@ -761,9 +823,9 @@ func rwReplay(c rwCase) *rwResult {
 			t.evs = append(t.evs, e)
 		}
 	}
-	t.base, _ = sc.result()
+	t.setBase(sc)
 	inc := t.run(crashfs.New(), rwBook{}, t.env.t0, 0)
-	fmt.Printf("replay: schedule %s validator V%d: %d events, base run finalized %v\n", c.Schedule, c.Node, len(t.evs), t.base)
+	fmt.Printf("replay: schedule %s validator V%d: %d events, base run finalized %v\n", c.Schedule, c.Node, len(t.evs), t.baseFin)
 	for ci, cr := range c.Crashes {
 		var s *rwStep
 		for i := range inc.steps {
@@ -834,7 +896,7 @@ func c02RealWALSpecs(thorough bool) []rwSpec {
 			add("happy", v, 2, 35)
 		}
 		add("B4", 0, 2, 35)
-		out[len(out)-1].LaterSteps = 10
+		out[len(out)-1].LaterSteps = 5
 		add("B4", 1, 1, 35)
 		add("B4", 2, 1, 35)
 		for _, s := range []string{"B3", "B5"} {
@@ -842,19 +904,22 @@ func c02RealWALSpecs(thorough bool) []rwSpec {
 				add(s, v, 1, 35)
 			}
 		}
+		// two-height schedules
+		add("B7", 0, 1, 35)
+		add("B8", 0, 1, 35)
 		// rotation family (tiny FileLimit, housekeeping tick as an event)
 		rot("happy", 0, 2, 35, 1)
 		rot("happy", 1, 2, 35, 1)
 		rot("happy", 2, 2, 35, 2)
 		rot("B4", 0, 2, 35, 1)
-		out[len(out)-1].LaterSteps = 10
+		out[len(out)-1].LaterSteps = 5
 		rot("B4", 1, 1, 35, 2)
 		return out
 	}
 	for v := 0; v < 4; v++ {
 		add("happy", v, 3, 330)
 	}
-	for _, s := range []string{"B4", "B3", "B5"} {
+	for _, s := range []string{"B4", "B3", "B5", "B7", "B8"} {
 		for v := 0; v < 3; v++ {
 			add(s, v, 2, 330)
 		}
@@ -881,7 +946,7 @@ func c02RealWAL(r *ev.Run, exe, work string) bool {
 		"real-WAL family: one validator of a directed base schedule (happy path, B3, B4, B5) runs over the real consensus/wal.go on crashfs; crash model as in C03: directory operations durable once issued, file data durable up to the last Sync, any byte prefix of the un-synced suffix of each WAL file may survive, plus (size metadata durable before payload data) a zero-filled tail confined to the payload of the last surviving record whose header is intact",
 		"real-WAL family: crash positions = after every file-system call and after every network send of every step of the chosen validator (reconstructed from the crashfs call log and the recorded send order; cross-checked against real crashfs.FailAfter cuts); after a restart the rest of the validator's recorded wire events is delivered; the other validators behave as in the base run; up to 2 (thorough: 3 on the happy path) crash generations",
 		"real-WAL rotation family: the engine's WAL FileLimit is replaced by 200 bytes (TotalLimit 1 GiB: no head segment is ever deleted) and wal.go's housekeeping ticker becomes an explicit event - one doHousekeeping call per open writer at the end of every k-th step (k in 1..3) - so segments rotate after about two records; the file-system calls of a tick are crash positions like any other; a record written to an unlinked segment is not durable (not reachable by name)",
-		"real-WAL family: height 1 only - a validator that has finalized is terminal (the harness's block store does not survive a restart); housekeeping of wal.go never runs (HousekeepingInterval 1000 h): rotation is C03's business",
+		"real-WAL family: the finalized chain is durable (the fake block manager's Finalize is durable once it returns: a crash position before that point restarts without the block, one after it with the block in the chain; the block store itself is not torn); a validator is terminal once it has finalized the last height its base schedule decides (1 height for happy/B3/B4/B5, 2 heights for B7/B8, whose WALs then hold records of both heights); housekeeping of wal.go never runs (HousekeepingInterval 1000 h): rotation is C03's business",
 	)
 	results := make([]*rwResult, len(specs))
 	ev.Par(len(specs), 16, func(i int) {
@@ -946,7 +1011,11 @@ func c02RealWAL(r *ev.Run, exe, work string) bool {
 		tot["realwal_cases_signed_again_after_restart"] += int64(len(res.Resigned))
 		tot["realwal_real_engine_steps"] += int64(res.EngineSteps)
 		tot["realwal_failafter_selftest_points"] += int64(res.SelfTest)
-		tot["realwal_observations_beyond_height_1_not_judged"] += int64(res.BeyondHeight1)
+		tot["realwal_crash_positions_right_after_a_finalize"] += int64(res.FinalizePositions)
+		if res.Heights > 1 {
+			tot["realwal_two_height_schedules_crash_images"] += int64(cases)
+			tot["realwal_two_height_schedules_restarts_with_a_finalized_chain"] += int64(res.RestartsWithChain)
+		}
 		if !res.Complete {
 			ok = false
 			r.Cap(fmt.Sprintf("real-WAL %s: wall-clock budget after %d crash images", name, cases))
@@ -991,6 +1060,8 @@ func c02RealWAL(r *ev.Run, exe, work string) bool {
 	}
 	r.Sanity(tot["realwal_crash_images_torn"] > 0 && tot["realwal_restarts_that_repaired_a_wal"] > 0 && tot["realwal_cases_signed_again_after_restart"] > 0 && tot["realwal_crash_images_zero_filled_tail"] > 0,
 		"real-WAL tier vacuous: torn=%d repaired=%d resigned=%d zero=%d", tot["realwal_crash_images_torn"], tot["realwal_restarts_that_repaired_a_wal"], tot["realwal_cases_signed_again_after_restart"], tot["realwal_crash_images_zero_filled_tail"])
+	r.Sanity(tot["realwal_two_height_schedules_restarts_with_a_finalized_chain"] > 0 && tot["realwal_crash_positions_right_after_a_finalize"] > 0,
+		"two-height schedules vacuous: restarts with a chain=%d, positions right after a finalize=%d", tot["realwal_two_height_schedules_restarts_with_a_finalized_chain"], tot["realwal_crash_positions_right_after_a_finalize"])
 	r.Sanity(tot["realwal_rotation_family_segments_created_by_ticks"] > 0 && tot["realwal_rotation_family_repairs_that_removed_a_segment"] > 0,
 		"rotation family vacuous: segments created=%d, repairs that removed a segment=%d", tot["realwal_rotation_family_segments_created_by_ticks"], tot["realwal_rotation_family_repairs_that_removed_a_segment"])
 	return ok
